@@ -33,11 +33,11 @@ theorem and_two_pow_eq (x k : Nat) : x &&& 2 ^ k = 2 ^ k * (x / 2 ^ k % 2) := by
       rw [Nat.testBit_eq_decide_div_mod_eq]
       rcases Nat.mod_two_eq_zero_or_one (x / 2 ^ k) with h | h <;> simp [h]
     rw [h1]
-    cases hb : x.testBit k <;> simp [Nat.testBit_two_pow]
+    cases hb : x.testBit k <;> simp
   · have h2 : (2 ^ k * (x / 2 ^ k % 2)).testBit i = false := by
       rcases Nat.mod_two_eq_zero_or_one (x / 2 ^ k) with h | h
       · simp [h]
-      · simp [h, Nat.testBit_two_pow, hik]
+      · simp [h, hik]
     simp [hik, h2]
 
 theorem and_two_pow_eq_zero_iff (x k : Nat) : (x &&& 2 ^ k = 0) ↔ x / 2 ^ k % 2 = 0 := by
